@@ -49,7 +49,7 @@ theorem C05_inv (r : Record) (op : Op) (h : wellTyped r = true) : wellTyped (ste
             -- index beyond the slot list cannot come out of `findIdx?`
             have := List.findIdx?_eq_some_iff_getElem.mp hi
             obtain ⟨hlt, -⟩ := this
-            simp [List.getElem?_eq_none_iff] at ht
+            simp at ht
             omega
           | some p => exact slotsOk_set r.types r.vals i p.1 p.2 .unset h (by simp [ht]) rfl
         · split at ha
@@ -73,7 +73,7 @@ theorem C05_inv (r : Record) (op : Op) (h : wellTyped r = true) : wellTyped (ste
       obtain ⟨vs, hvs, ha⟩ := bind_ok _ _ _ ha
       split at ha
       · simp [throw, throwThe, MonadExceptOf.throw, bind, Except.bind] at ha
-      · simp [pure, Except.pure, bind, Except.bind] at ha
+      · simp [pure, Except.pure] at ha
         subst ha
         exact replaceSlots_ok kvs r.types r.vals vs h hvs
 
@@ -175,9 +175,9 @@ theorem C05_boolean_fraction (p : Int) (q : Nat) (hq : 0 < q) (a : Ann) :
     · left; simpa using hk
     · right; simpa using hk
   · rintro (rfl | rfl)
-    · simp [throw, throwThe, MonadExceptOf.throw]
+    · simp
     · have : (q : Int) % (q : Int) = 0 := Int.emod_self
-      simp [this, throw, throwThe, MonadExceptOf.throw]
+      simp [this]
 
 /-- A `bytes` field accepts ONLY bytes — and keeps them unchanged. -/
 theorem C05_bytes_only_bytes (x : Inp) (v : FVal) (h : coerce (.scalar .bytes) x = .ok v) :
